@@ -208,6 +208,7 @@ package syncx
 //@   property C07
 //@   ghost at returned#0: running[ret] = zeros(running[ret])
 //@   ensures  result != nil && fresh(result)
+//@   modifies running
 //@   allocates
 // every manager has its own flight group: creations in different managers never share a flight (a shared group would hand
 // manager B the resource created for manager A and register nothing in B)
